@@ -35,7 +35,7 @@ def nesting(fn):
     return out
 
 
-def transformer(fn, lookup, args, dom, bind, loop=None, pre_env=None, from_block=None, extra_stops=()):
+def transformer(fn, lookup, args, dom, bind, loop=None, pre_env=None, from_block=None, extra_stops=(), from_prev=None, pre_state=None):
     """-> LoopTx with: phis, init {phi: value}, sym {phi: bound symbol}, backs [(state, {phi: next value})],
     exits [(state, block)] leaving the loop, rets [(state, ret)], pre (state before the loop)
     bind(phi_instr, init_value) -> abstract value for the phi in the one-iteration run"""
@@ -45,11 +45,20 @@ def transformer(fn, lookup, args, dom, bind, loop=None, pre_env=None, from_block
     tx = LoopTx()
     tx.header, tx.body, tx.phis = header, body, phis
     # 1. code before the loop: initial phi values
-    ro, rets0 = it.run_region(fn, args, from_block or fn.entry, dict(pre_env or {}), [header])
-    ro = [r for r in ro if r[1] is header]
-    if len(ro) != 1:
-        raise Unsupported('pre-loop code of %s forks (%d paths reach the loop)' % (fn.name, len(ro)))
-    s0, _, prev0 = ro[0]
+    if (from_block or fn.entry) is header and from_prev is not None:
+        s0 = pre_state or symx.State()
+        s0.env = dict(pre_env or {})
+        for (t, n), a in zip(fn.params, args):
+            if n is not None:
+                s0.env.setdefault(n, a)
+        prev0 = from_prev
+        rets0 = []
+    else:
+        ro, rets0 = it.run_region(fn, args, from_block or fn.entry, dict(pre_env or {}), [header], st=pre_state, prev=from_prev)
+        ro = [r for r in ro if r[1] is header]
+        if len(ro) != 1:
+            raise Unsupported('pre-loop code of %s forks (%d paths reach the loop)' % (fn.name, len(ro)))
+        s0, _, prev0 = ro[0]
     tx.pre = s0
     tx.pre_rets = rets0
     init = {}
@@ -92,7 +101,11 @@ def transformer(fn, lookup, args, dom, bind, loop=None, pre_env=None, from_block
     # 3. continue every loop exit to the function's return (must not re-enter the loop)
     tx.finals = list(rets)
     for s, blk, prev in tx.exits:
-        ro3, rets3 = it2.run_region(fn, args, blk, dict(s.env), [header], st=s.clone(), prev=prev)
+        try:
+            ro3, rets3 = it2.run_region(fn, args, blk, dict(s.env), [header], st=s.clone(), prev=prev)
+        except Unsupported:
+            tx.finals = None   # another loop follows
+            break
         if ro3:
             tx.finals = None   # outer loop: the exit flows back into a loop
             break
